@@ -86,3 +86,45 @@ Lemma epoch_utc_example :
                     && oZ_eqb (model_instant month_table tz_table (r_dtfs r) f7_caps None 0) (Some (1843250587 * 1000000000)%Z))
           dt_table = true.
 Proof. vm_compute. reflexivity. Qed.
+
+(* ------------------------------------------------------------------ zones: fallback rules *)
+Lemma assoc_in {A} (k : bytes) (l : list (bytes * A)) (v : A) : assoc k l = Some v -> In (k, v) l.
+Proof.
+  induction l as [|[k' v'] l IH]; cbn; [discriminate|].
+  destruct (beqb k k') eqn:E.
+  - intros H. inversion H; subst. apply beqb_eq in E. subst. left. reflexivity.
+  - intros H. right. apply IH. exact H.
+Qed.
+
+(* no zone in the notation: the fallback zone's own text is appended *)
+Lemma no_zone_fallback_lemma d c tzs :
+  f_tz d = Tz_fill -> seg_tz tz_table d c tzs = Some tzs.
+Proof. intros H. unfold seg_tz. rewrite H. reflexivity. Qed.
+
+(* an ambiguous abbreviation (reference: None) is replaced by the fallback zone's text *)
+Lemma ambiguous_zone_fallback_lemma d c t tzs :
+  f_tz d = Tz_Z -> c_tz c = Some t -> zone_of_name t = Some None ->
+  seg_tz tz_table d c tzs = Some tzs.
+Proof.
+  intros Hd Hc Hz. unfold zone_of_name in Hz. apply assoc_in in Hz.
+  destruct (tz_matches_ref_all _ _ Hz) as [s [Hs Hv]].
+  unfold seg_tz. rewrite Hd, Hc, Hs.
+  destruct s as [|b s']; [reflexivity|].
+  exfalso. unfold tz_value_off in Hv.
+  destruct (scan_offset false (b :: s')) as [[o [|x r]]|]; discriminate.
+Qed.
+
+(* an unambiguous abbreviation is replaced by a text that chrono's offset scanner reads, completely,
+   as exactly the reference offset *)
+Lemma named_zone_offset_lemma d c t o tzs :
+  f_tz d = Tz_Z -> c_tz c = Some t -> zone_of_name t = Some (Some o) ->
+  exists s, seg_tz tz_table d c tzs = Some s /\ scan_offset false s = Some (o, []).
+Proof.
+  intros Hd Hc Hz. unfold zone_of_name in Hz. apply assoc_in in Hz.
+  destruct (tz_matches_ref_all _ _ Hz) as [s [Hs Hv]].
+  exists s. unfold seg_tz. rewrite Hd, Hc, Hs.
+  unfold tz_value_off in Hv. destruct s as [|b s']; [discriminate|].
+  split; [reflexivity|].
+  destruct (scan_offset false (b :: s')) as [[o' [|x r]]|]; try discriminate.
+  inversion Hv. reflexivity.
+Qed.
